@@ -159,7 +159,7 @@ class ScriptEnv(ParallelEnv):
         self.env_id = int(env_id)
         self.n_agents = int(n_agents)
         self.obs_kind, self.act_kind = obs_kind, act_kind
-        self.length, self.end, self.leave = int(length), end, bool(leave)
+        self.length, self.end, self.leave = int(length), end, int(leave)   # 0 none, 1 / 2 = agent_0 leaves 1 / 2 steps before the end
         self.possible_agents = [f"agent_{a}" for a in range(self.n_agents)]
         self._obs_spaces = {ag: make_obs_space(obs_kind, a) for a, ag in enumerate(self.possible_agents)}
         self._act_spaces = {ag: make_act_space(act_kind) for ag in self.possible_agents}
@@ -269,8 +269,10 @@ class ScriptEnv(ParallelEnv):
         return obs, info
 
     def _leave_step(self):
-        # agent_0 leaves one step before the end (only meaningful with >=2 agents and length >=2)
-        return self.length - 1 if (self.leave and self.n_agents >= 2 and self.length >= 2) else None
+        # agent_0 leaves `leave` steps before the end (only meaningful with >=2 agents and length > leave). With leave=2 there is
+        # a step in which agent_0 is absent and NO auto-reset follows in the same worker command (per-agent state kept across
+        # steps inside the worker is only visible then).
+        return self.length - self.leave if (self.leave and self.n_agents >= 2 and self.length > self.leave) else None
 
     def step(self, actions):
         k = self._count["step"]
